@@ -76,6 +76,24 @@ CLAIMED = {
           "B <= 1024, taps <= 16."),
     technique="TLA+ model (TLC exhaustive) + spec-generated behaviours replayed on the implementation + numeric definition check",
     design_ref="DESIGN.md 4.8, 5 (C08)", engine="pfb"),
+ "C02": dict(
+    text=("Backend.tla is a step machine of record()/collect_data_block(): RecordBegin, OpenFile, WriteHeader, "
+          "PlanBlock (W, subblock_T, in-place update of num_subblocks), Request (W windows at the start of an "
+          "observation, W-1 afterwards), Store (the t_idx byte writes per polarisation for 8- and 4-bit), "
+          "WriteBlock, CloseFile, RecordEnd, with the PFB tail cache and antenna clock explicit. TLC checks "
+          "LayoutIsGuppi (every byte of every block holds exactly spectrum k*T+t / pol / component of the standard "
+          "layout), NoDoubleWrite, SubblocksPartitionBlock, NumSubblocksIdempotent, CacheHandover, BlocksPerFile, "
+          "SamplesDrawn, HistoryIndependence for every (taps, windows/block, num_subblocks incl. non-dividing and "
+          "larger than the windows, blocks, blocks/file, pols, bits) and two recordings. Configurations drawn by TLC "
+          "are recorded by real backends (antenna or 2-antenna array with delays, digitiser on/off, both "
+          "orientations, three sample rates, random start channel); the antenna request sequence, files and "
+          "PKTIDX must equal TLC's and every data byte must equal the harness-owned reference pipeline (quantise, "
+          "FIR + explicit DFT, requantise, GUPPI encode) fed by a same-seed twin antenna in one request."),
+    note=("Trusted: TLC, the reference pipeline and GUPPI encoder/parser in /verif/harness, numpy arithmetic. "
+          "Statistics from a common prefix (period -1); 1-LSB tolerance only within 1e-7 of a rounding tie of the "
+          "reference. Bounded: taps 2-3, <= 7 windows/block, <= 3 blocks, branches 8/16."),
+    technique="TLA+ model (TLC exhaustive) + spec-generated configurations recorded by the implementation, bytes compared with a reference pipeline",
+    design_ref="DESIGN.md 4.10, 5 (C02)", engine="backend"),
 }
 
 NOT_YET = "check not built yet in this round (planned, see DESIGN.md 5); no claim is made"
